@@ -99,6 +99,11 @@ impl OutstationTask {
 
     /// run the outstation task asynchronously until a `SessionError` occurs
     pub(crate) async fn run(&mut self, io: &mut PhysLayer) -> RunError {
+        // if the future of the previous session was dropped (TCP server accepting a new
+        // connection) the resets at the end of this method were never reached
+        self.reader.reset();
+        self.writer.reset();
+
         let res = self
             .session
             .run(io, &mut self.reader, &mut self.writer, &mut self.database)
